@@ -142,7 +142,7 @@ def sig_of(diff):
 
 class C12(StoreProp):
     id = 'C12'
-    quick_runs = 1500
+    quick_runs = 6000
     thorough_runs = 40000
     chunk = 16
     w = dict(WEIGHTS)
